@@ -172,11 +172,11 @@ def ref_region_string(s):
     """'name', 'name:start-end', 'name:start-' -> (name, start|None, end|None)"""
     if ":" not in s:
         name = s
-        if not name:
+        if not name.strip():
             raise Refuse("empty name")
         return (name, None, None)
     name, _, rng = s.partition(":")
-    if not name:
+    if not name.strip():
         raise Refuse("empty name")
     if ":" in rng:
         raise Refuse("second colon")
